@@ -5,6 +5,9 @@
 import Proofs.C16_Api
 import Proofs.C16_Clean
 import Proofs.C16_Image
+import Proofs.C16_ApiSpec
+import Proofs.C16_Example
+import Proofs.C16_ConvSpec
 namespace Mammoth
 
 /-! ### `unique`: reported ONCE -/
@@ -393,5 +396,400 @@ example :
     ((visitAll {} false [.paragraph { styleId := some S!"X" } [], .paragraph { styleId := some S!"X" } []]).run
         {}).toOption.map (fun r => (r.2.messages.length, (unique r.2.messages).length)) = some (2, 1) := by
   rfl
+
+
+/-! ### the GLOBAL statement on the reader side: messages = an independent traversal of the XML -/
+
+/-- THE READER'S MESSAGES ARE THE WARNINGS OF THE SPECIFICATION.  For every environment (styles, numbering,
+    relationships, content types), every amount of fuel, every reader state and every XML node: if the
+    element reader returns `(r, st')`, then
+      * `r.messages` is exactly the list of warnings that `c16_spec` (Proofs/C16_XmlSpec.lean: a structural
+        traversal of the tree by element NAMES — unknown elements, undefined paragraph / run / table styles,
+        unsupported breaks and symbols, pictures without image or of an unlikely type, `v:imagedata` without
+        id, tables with non-rows / rows with non-cells — in reading order) prescribes, run in the field
+        state of `st` (`c16_abs st`: the open complex fields and the instruction text, on which it depends
+        whether a `w:fldChar end` directly inside a table is a stray check box) and with the buffer that
+        stands for the content the reader holds back after deleted paragraph marks (`c16_pend env st.deleted`);
+      * the field state afterwards is the one the specification computes;
+      * CONSERVATION of deferred content: the content held back afterwards is the buffer the specification
+        leaves — what a deleted-mark paragraph contains is reported by the next opened paragraph (after that
+        paragraph's own style warning, before its own content), or is still waiting. -/
+theorem C16_read_messages_spec (env : REnv) (f : Nat) (st : RState) (n : XmlNode) (r : ReadResult) (st' : RState)
+    (h : readElem env f st n = .ok (r, st')) :
+    r.messages = ((c16_spec env n (c16_pend env st.deleted)).eff (c16_abs st)).msgs ∧
+    c16_abs st' = ((c16_spec env n (c16_pend env st.deleted)).eff (c16_abs st)).fs ∧
+    c16_pend env st'.deleted = (c16_spec env n (c16_pend env st.deleted)).buf := by
+  have hp := c16_readElem_spec env f st n r st' h
+  exact ⟨hp.sum.msgs, hp.fs, hp.buf⟩
+
+/-- …the same for a list of sibling nodes (`read_all`) -/
+theorem C16_read_messages_spec_all (env : REnv) (f : Nat) (st : RState) (ns : List XmlNode) (r : ReadResult)
+    (st' : RState) (h : readAll env f st ns = .ok (r, st')) :
+    r.messages = ((c16_specL env ns (c16_pend env st.deleted)).eff (c16_abs st)).msgs ∧
+    c16_abs st' = ((c16_specL env ns (c16_pend env st.deleted)).eff (c16_abs st)).fs ∧
+    c16_pend env st'.deleted = (c16_specL env ns (c16_pend env st.deleted)).buf := by
+  have hp := c16_readAll_spec env f st ns r st' h
+  exact ⟨hp.sum.msgs, hp.fs, hp.buf⟩
+
+/-- …and from the initial state (no open field, nothing held back), which is how every story of a package
+    is read: the messages are `c16_xmlWarnings env ns` -/
+theorem C16_read_messages_initial (env : REnv) (f : Nat) (ns : List XmlNode) (r : ReadResult) (st' : RState)
+    (h : readAll env f {} ns = .ok (r, st')) : r.messages = c16_xmlWarnings env ns :=
+  c16_readAll_initial env f ns r st' h
+
+/-- the specification also says what the table reader sees: whether the elements read are all rows made of
+    cells (code 0), all rows but one with a non-cell (1), or not all rows (2), and whether they are all cells -/
+theorem C16_read_grid_shape (env : REnv) (f : Nat) (st : RState) (n : XmlNode) (r : ReadResult) (st' : RState)
+    (h : readElem env f st n = .ok (r, st')) :
+    (if !r.elements.all isRow then 2 else if !(r.elements.all fun row => (rowCells row).all isCell) then 1 else 0) =
+        ((c16_spec env n (c16_pend env st.deleted)).eff (c16_abs st)).code ∧
+    r.elements.all isCell = ((c16_spec env n (c16_pend env st.deleted)).eff (c16_abs st)).cells := by
+  have hp := c16_readElem_spec env f st n r st' h
+  exact ⟨hp.sum.code, hp.sum.cells⟩
+
+/-- the specification of a paragraph, spelled out: with a deleted mark it reports nothing and its content
+    (preceded by what was already waiting) waits at level 0 of the buffer; without, it reports its style
+    warning, then what was waiting, then its own content -/
+theorem C16_spec_paragraph (env : REnv) (as : Attrs) (cs : List XmlNode) (b : c16_Buf) :
+    c16_spec env (.elem S!"w:p" as cs) b =
+      if c16_delMark cs then
+        ⟨c16_skip, c16_bufCons (c16_seq (c16_bufHead b) (c16_specL env cs (c16_bufTail b)).eff)
+                      (c16_specL env cs (c16_bufTail b)).buf⟩
+      else
+        ⟨c16_box (c16_styleWarn S!"Paragraph" S!"w:pPr" S!"w:pStyle" env.styles.paragraph cs)
+            (c16_seq (c16_bufHead b) (c16_specL env cs (c16_bufTail b)).eff),
+         (c16_specL env cs (c16_bufTail b)).buf⟩ :=
+  c16_spec_paragraph env as cs b (by decide)
+
+/-- the names the specification treats as unknown are exactly the names without a reader
+    (`Generated.handlers`); of those, the ones on `Generated.ignored` are silent -/
+theorem C16_spec_unknown_iff (name : Str) : c16_kindOf name = .unknown ↔ handlerOf name = none :=
+  c16_kindOf_unknown_iff name
+
+/-! ### clean XML is silent; an anomaly at any depth is not -/
+
+/-- CLEAN XML IS READ WITHOUT ANY MESSAGE.  `c16_xmlCleanL env ns` (decidable, Proofs/C16_XmlClean.lean):
+    made only of supported constructs — every element has a reader or is on the ignore list, every
+    paragraph / run / table style id is defined, breaks and symbols are supported, every picture resolves to
+    an image of a type browsers show, tables contain rows and rows contain cells.  Then, for every fuel and
+    every reader state whose held-back content is clean as well, reading `ns` gives no message. -/
+theorem C16_xml_clean_silent (env : REnv) (f : Nat) (st : RState) (ns : List XmlNode) (r : ReadResult)
+    (st' : RState) (hc : c16_xmlCleanL env ns = true) (hd : c16_xmlCleanL env st.deleted = true)
+    (h : readAll env f st ns = .ok (r, st')) : r.messages = [] :=
+  c16_read_clean_silent env f st ns r st' hc hd h
+
+/-- …in particular from the initial state -/
+theorem C16_xml_clean_silent_initial (env : REnv) (f : Nat) (ns : List XmlNode) (r : ReadResult)
+    (st' : RState) (hc : c16_xmlCleanL env ns = true)
+    (h : readAll env f {} ns = .ok (r, st')) : r.messages = [] :=
+  c16_read_clean_silent env f {} ns r st' hc rfl h
+
+/-- AN ANOMALY AT ANY DEPTH YIELDS ITS WARNING.  `c16_occursL p ns`: an element satisfying `p` occurs at a
+    position of `ns` that the reader reads (at any depth: body, tables, text boxes, hyperlinks, alternate
+    content, structured document tags).  If every such element reports `w` for itself (`c16_ownWarn`), then
+    `w` is among the reader's messages — unless the element sits in the content of a deleted-mark paragraph
+    that no later paragraph has taken over, in which case it is still in the buffer (`c16_BufHas`). -/
+theorem C16_anomaly_any_depth (env : REnv) (p : Str → Attrs → List XmlNode → Bool) (w : Str)
+    (hp : ∀ name as cs, p name as cs = true → w ∈ c16_ownWarn env name as cs)
+    (f : Nat) (st : RState) (ns : List XmlNode) (r : ReadResult) (st' : RState)
+    (h : readAll env f st ns = .ok (r, st'))
+    (ho : c16_occursL p ns = true ∨ c16_occursL p st.deleted = true) :
+    w ∈ r.messages ∨ c16_BufHas w (c16_pend env st'.deleted) :=
+  c16_read_anomaly env p w hp f st ns r st' h ho
+
+/-- …so when nothing is held back at the end, it IS among the messages -/
+theorem C16_anomaly_any_depth_reported (env : REnv) (p : Str → Attrs → List XmlNode → Bool) (w : Str)
+    (hp : ∀ name as cs, p name as cs = true → w ∈ c16_ownWarn env name as cs)
+    (f : Nat) (st : RState) (ns : List XmlNode) (r : ReadResult) (st' : RState)
+    (h : readAll env f st ns = .ok (r, st')) (ho : c16_occursL p ns = true) (hend : st'.deleted = []) :
+    w ∈ r.messages := by
+  rcases c16_read_anomaly env p w hp f st ns r st' h (Or.inl ho) with h1 | h2
+  · exact h1
+  · rw [hend, c16_pend_nil] at h2
+    exact absurd h2 (c16_not_BufHas_noBuf w)
+
+/-- UNKNOWN ELEMENT, any depth: an element named `x` (no reader, not on the ignore list) at a read position -/
+theorem C16_unknown_element_any_depth (env : REnv) (x : Str) (hx : handlerOf x = none)
+    (hi : x ∉ Generated.ignored) (f : Nat) (st : RState) (ns : List XmlNode) (r : ReadResult) (st' : RState)
+    (h : readAll env f st ns = .ok (r, st'))
+    (ho : c16_occursL (fun name _ _ => name == x) ns = true) (hend : st'.deleted = []) :
+    (S!"An unrecognised element was ignored: " ++ x) ∈ r.messages := by
+  refine C16_anomaly_any_depth_reported env _ _ ?_ f st ns r st' h ho hend
+  intro name as cs hn
+  have : name = x := by simpa using hn
+  subst this
+  simp [c16_ownWarn, c16_kindOf_none hx, c16_unknownWarn, hi]
+
+/-- UNDEFINED PARAGRAPH STYLE, any depth: a `w:p` (mark not deleted) whose `w:pPr/w:pStyle` is an id that
+    `styles.xml` does not define as a paragraph style -/
+theorem C16_undefined_paragraph_style_any_depth (env : REnv) (sid : Str)
+    (hs : lookupLast (some sid) env.styles.paragraph = none)
+    (f : Nat) (st : RState) (ns : List XmlNode) (r : ReadResult) (st' : RState)
+    (h : readAll env f st ns = .ok (r, st'))
+    (ho : c16_occursL (fun name _ cs => name == S!"w:p" && !c16_delMark cs &&
+            (childAttr S!"w:pStyle" S!"w:val" (findChildOrNull S!"w:pPr" cs).2 == some sid)) ns = true)
+    (hend : st'.deleted = []) :
+    (S!"Paragraph style with ID " ++ sid ++ S!" was referenced but not defined in the document") ∈ r.messages := by
+  refine C16_anomaly_any_depth_reported env _ _ ?_ f st ns r st' h ho hend
+  intro name as cs hn
+  simp only [Bool.and_eq_true, beq_iff_eq, Bool.not_eq_true'] at hn
+  obtain ⟨⟨rfl, hd⟩, hsid⟩ := hn
+  have hk : c16_kindOf S!"w:p" = .paragraph := by decide
+  simp [c16_ownWarn, hk, hd, c16_styleWarn, hsid, hs]
+
+/-- UNDEFINED RUN STYLE, any depth -/
+theorem C16_undefined_run_style_any_depth (env : REnv) (sid : Str)
+    (hs : lookupLast (some sid) env.styles.character = none)
+    (f : Nat) (st : RState) (ns : List XmlNode) (r : ReadResult) (st' : RState)
+    (h : readAll env f st ns = .ok (r, st'))
+    (ho : c16_occursL (fun name _ cs => name == S!"w:r" &&
+            (childAttr S!"w:rStyle" S!"w:val" (findChildOrNull S!"w:rPr" cs).2 == some sid)) ns = true)
+    (hend : st'.deleted = []) :
+    (S!"Run style with ID " ++ sid ++ S!" was referenced but not defined in the document") ∈ r.messages := by
+  refine C16_anomaly_any_depth_reported env _ _ ?_ f st ns r st' h ho hend
+  intro name as cs hn
+  simp only [Bool.and_eq_true, beq_iff_eq] at hn
+  obtain ⟨rfl, hsid⟩ := hn
+  have hk : c16_kindOf S!"w:r" = .run := by decide
+  simp [c16_ownWarn, hk, c16_styleWarn, hsid, hs]
+
+/-- UNDEFINED TABLE STYLE, any depth -/
+theorem C16_undefined_table_style_any_depth (env : REnv) (sid : Str)
+    (hs : lookupLast (some sid) env.styles.table = none)
+    (f : Nat) (st : RState) (ns : List XmlNode) (r : ReadResult) (st' : RState)
+    (h : readAll env f st ns = .ok (r, st'))
+    (ho : c16_occursL (fun name _ cs => name == S!"w:tbl" &&
+            (childAttr S!"w:tblStyle" S!"w:val" (findChildOrNull S!"w:tblPr" cs).2 == some sid)) ns = true)
+    (hend : st'.deleted = []) :
+    (S!"Table style with ID " ++ sid ++ S!" was referenced but not defined in the document") ∈ r.messages := by
+  refine C16_anomaly_any_depth_reported env _ _ ?_ f st ns r st' h ho hend
+  intro name as cs hn
+  simp only [Bool.and_eq_true, beq_iff_eq] at hn
+  obtain ⟨rfl, hsid⟩ := hn
+  have hk : c16_kindOf S!"w:tbl" = .table := by decide
+  simp [c16_ownWarn, hk, c16_styleWarn, hsid, hs]
+
+/-! ### composition to the package and to the public entry point -/
+
+/-- THE MESSAGES OF `docx.read` are, for every package and every fuel, the warnings the specification
+    prescribes for the four stories of the package — footnotes, endnotes, comments, body, in this order —
+    each in its own environment (`c16_pkgStories`, `c16_readerWarnings`: no fuel, no reader state) -/
+theorem C16_reader_messages_package (p : Package) (fuel : Nat) (doc : Document) (msgs : List Str)
+    (h : readPackage p fuel = .ok (doc, msgs)) : c16_readerWarnings p = .ok msgs :=
+  c16_readPackage_messages p fuel doc msgs h
+
+/-- the messages of a whole conversion, reader part specified: `unique` of
+      warnings of the explicit style map ++ warnings of the embedded style map
+      ++ the reader warnings of the stories (footnotes, endnotes, comments, body; per `c16_xmlWarnings`)
+      ++ the messages the converter records while visiting the (transformed) document -/
+theorem C16_api_messages_reader_spec (p : Package) (fuel : Nat) (base : Option Str)
+    (world : Str → Option Bytes) (tr : Document → Document) (o : Options) (r : ApiOut)
+    (h : apiConvert p fuel base world tr o = .ok r) :
+    ∃ embedded stories doc nodes st,
+      (if o.includeEmbedded then readEmbeddedStyleMap p else .ok none) = .ok embedded ∧
+      c16_pkgStories p = .ok stories ∧
+      readPackage p fuel = .ok (doc, c16_storiesWarnings stories) ∧
+      (visitDocument { c16_apiCfg p base world o embedded with comments := (tr doc).comments }
+          (tr doc)).run {} = .ok (nodes, st) ∧
+      r.messages =
+        unique (c16_styleWarnings (o.styleMap.getD []) ++ c16_styleWarnings (embedded.getD []) ++
+                c16_storiesWarnings stories ++ st.messages) := by
+  obtain ⟨embedded, doc, readMsgs, nodes, st, he, hd, hv, hm, _⟩ :=
+    C16_api_messages_flat p fuel base world tr o r h
+  obtain ⟨stories, hs, rfl⟩ :=
+    c16_readerWarnings_stories p readMsgs (c16_readPackage_messages p fuel doc readMsgs hd)
+  exact ⟨embedded, stories, doc, nodes, st, he, hs, hd, hv, hm⟩
+
+/-! ### the converter side: messages = an independent traversal of the document -/
+
+/-- WHAT VISITING AN ELEMENT RECORDS.  For every configuration, element and converter state: the messages
+    added are exactly the warnings among `c16_cevs cfg e` (Proofs/C16_ConvSpec.lean: by recursion on the
+    document tree — "Unrecognised paragraph/run style" for a paragraph / run that has a style id and no
+    matching mapping, the `Image.open` warning of an image that cannot be opened, nothing below an element
+    mapped to `!`), the note references and the referenced comments added are the ones among these events -/
+theorem C16_visit_records (cfg : Cfg) (hdr : Bool) (e : Elem) (st st' : ConvState) (ns : List Node)
+    (h : (visit cfg hdr e).run st = .ok (ns, st')) :
+    st'.messages = st.messages ++ c16_cWarns (c16_cevs cfg e) ∧
+    st'.noteRefs = st.noteRefs ++ c16_cRefs (c16_cevs cfg e) ∧
+    st'.refComments.map Prod.snd = st.refComments.map Prod.snd ++ c16_cComments cfg (c16_cevs cfg e) := by
+  have p := c16_visit_events cfg hdr e st ns st' h
+  exact ⟨p.msgs, p.refs, p.comments⟩
+
+/-- THE MESSAGES OF THE CONVERTER for a whole document: `unique` of the warnings of the body, then of the
+    notes the body references (in order of reference), then of the comments referenced from body and notes
+    (`c16_docWarnings`) -/
+theorem C16_convert_messages_spec (cfg : Cfg) (d : Document) (cr : ConvResult)
+    (h : convertDoc cfg d = .ok cr) : cr.messages = unique (c16_docWarnings cfg d) :=
+  c16_convertDoc_messages cfg d cr h
+
+/-- THE MESSAGES OF A WHOLE CONVERSION are `unique` of
+      the warnings of the explicit style map ++ the warnings of the embedded style map
+      ++ the reader warnings of the stories of the package (footnotes, endnotes, comments, body: `c16_xmlWarnings`)
+      ++ the converter warnings of the (transformed) document that was read (`c16_docWarnings`)
+    — every distinct warning once, at the position of its first occurrence in this order -/
+theorem C16_api_messages_spec (p : Package) (fuel : Nat) (base : Option Str)
+    (world : Str → Option Bytes) (tr : Document → Document) (o : Options) (r : ApiOut)
+    (h : apiConvert p fuel base world tr o = .ok r) :
+    ∃ embedded stories doc,
+      (if o.includeEmbedded then readEmbeddedStyleMap p else .ok none) = .ok embedded ∧
+      c16_pkgStories p = .ok stories ∧
+      readPackage p fuel = .ok (doc, c16_storiesWarnings stories) ∧
+      r.messages =
+        unique (c16_styleWarnings (o.styleMap.getD []) ++ c16_styleWarnings (embedded.getD []) ++
+                c16_storiesWarnings stories ++
+                c16_docWarnings (c16_apiCfg p base world o embedded) (tr doc)) ∧
+      r.messages.Nodup := by
+  obtain ⟨embedded, stories, doc, nodes, st, he, hs, hd, hv, hm⟩ :=
+    C16_api_messages_reader_spec p fuel base world tr o r h
+  have pv := c16_visitDocument_events _ (tr doc) {} st nodes rfl rfl hv
+  refine ⟨embedded, stories, doc, he, hs, hd, ?_, by rw [hm]; exact C16_unique_nodup _⟩
+  rw [hm, pv.msgs]
+  rfl
+
+/-- A CLEAN PACKAGE CONVERTS WITHOUT ANY MESSAGE: every story is clean XML (`c16_pkgXmlClean`), every line
+    of the explicit and of the embedded style map parses (`c16_styleMapOk`), and every styled paragraph / run
+    of the document that was read is recognised by a mapping and every image can be opened (`c16_docClean`,
+    on the transformed document, under the configuration of this conversion) -/
+theorem C16_clean_package_silent (p : Package) (fuel : Nat) (base : Option Str)
+    (world : Str → Option Bytes) (tr : Document → Document) (o : Options) (r : ApiOut)
+    (embedded : Option Str) (doc : Document) (msgs : List Str)
+    (h : apiConvert p fuel base world tr o = .ok r)
+    (hx : c16_pkgXmlClean p = true)
+    (hs1 : c16_styleMapOk (o.styleMap.getD []) = true)
+    (he : (if o.includeEmbedded then readEmbeddedStyleMap p else .ok none) = .ok embedded)
+    (hs2 : c16_styleMapOk (embedded.getD []) = true)
+    (hd : readPackage p fuel = .ok (doc, msgs))
+    (hc : c16_docClean (c16_apiCfg p base world o embedded) (tr doc) = true) :
+    r.messages = [] := by
+  obtain ⟨embedded', stories, doc', nodes, st, he', hs, hd', hv, hm⟩ :=
+    C16_api_messages_reader_spec p fuel base world tr o r h
+  rw [he] at he'
+  cases he'
+  rw [hd] at hd'
+  cases hd'
+  have hw : c16_storiesWarnings stories = [] := by
+    unfold c16_pkgXmlClean at hx
+    rw [hs] at hx
+    exact c16_storiesWarnings_clean stories hx
+  simp only [c16_docClean, Bool.and_eq_true, List.all_eq_true] at hc
+  have hq := c16_visitDocument_quiet { c16_apiCfg p base world o embedded with comments := (tr doc).comments }
+    (tr doc) {} st nodes (fun _ hlc => by cases hlc)
+    (by rw [c16_cleanL_comments]; exact hc.1.1)
+    (fun n hmem => by rw [c16_cleanL_comments]; exact hc.1.2 n hmem)
+    (fun c hmem => by rw [c16_cleanL_comments]; exact hc.2 c hmem) hv
+  rw [hm, c16_styleMapOk_warn _ hs1, c16_styleMapOk_warn _ hs2, hw, hq]
+  rfl
+
+/-! ### examples for the global statements -/
+
+/-- the specification on a small story with every kind of reordering: a deleted-mark paragraph (its unknown
+    element and its open FORMCHECKBOX field are read by the next paragraph, which is inside a table cell),
+    the field ending directly inside a nested table (a stray check box: "non-row"), a text box ending with
+    a deleted mark, and an unsupported symbol -/
+example :
+    c16_xmlWarnings {} [
+      .elem S!"w:p" [] [.elem S!"w:pPr" [] [.elem S!"w:rPr" [] [.elem S!"w:del" [] []]],
+        .elem S!"w:r" [] [.elem S!"w:foo" [] []],
+        .elem S!"w:r" [] [.elem S!"w:fldChar" [(S!"w:fldCharType", S!"begin")] [],
+                          .elem S!"w:instrText" [] [.text S!" FORMCHECKBOX "]]],
+      .elem S!"w:tbl" [] [.elem S!"w:tr" [] [.elem S!"w:tc" [] [
+        .elem S!"w:p" [] [.elem S!"w:pPr" [] [.elem S!"w:pStyle" [(S!"w:val", S!"X")] []],
+                          .elem S!"w:r" [] [.elem S!"w:br" [(S!"w:type", S!"odd")] []]],
+        .elem S!"w:tbl" [] [.elem S!"w:fldChar" [(S!"w:fldCharType", S!"end")] [],
+                            .elem S!"w:tr" [] [.elem S!"w:bar" [] []]]]]],
+      .elem S!"w:p" [] [.elem S!"w:sym" [(S!"w:font", S!"Nope"), (S!"w:char", S!"41")] []]] =
+    [S!"Paragraph style with ID X was referenced but not defined in the document",
+     S!"An unrecognised element was ignored: w:foo",
+     S!"Unsupported break type: odd",
+     S!"An unrecognised element was ignored: w:bar",
+     S!"unexpected non-row element in table, cell merging may be incorrect",
+     S!"A w:sym element with an unsupported character was ignored: char 41 in font Nope"] := by
+  decide +kernel
+
+/-- the converter specification on a small document: an unmapped paragraph style, inside it an unmapped run
+    style and a linked image that cannot be opened; a paragraph sent to `!` (its styled run is never
+    visited: no warning); the same unmapped paragraph style again -/
+example :
+    c16_docWarnings { styleMap := [⟨.paragraph (some S!"Drop") none none, .ignore⟩] }
+      { children := [
+          .paragraph { styleId := some S!"P1", styleName := some S!"Para One" } [
+            .run { styleId := some S!"R1" } [.text S!"x"], .image { src := .linked S!"a.png" }],
+          .paragraph { styleId := some S!"Drop" } [.run { styleId := some S!"R2" } [.text S!"y"]],
+          .paragraph { styleId := some S!"P1", styleName := some S!"Para One" } []],
+        notes := [], comments := [] } =
+    [S!"Unrecognised paragraph style: Para One (Style ID: P1)",
+     S!"Unrecognised run style: None (Style ID: R1)",
+     S!"could not find external image 'a.png', fileobj has no name",
+     S!"Unrecognised paragraph style: Para One (Style ID: P1)"] := by
+  decide +kernel
+
+/-- A CONCRETE, NON-TRIVIAL CLEAN PACKAGE (Proofs/C16_Example.lean: styles, a footnote, an image, a table
+    with a spanning cell, a text box, a hyperlink, a dingbat, …) satisfies every hypothesis of
+    `C16_clean_package_silent` under the default options, and converts with no message -/
+example : c16_pkgXmlClean c16_exCleanPkg = true := by decide +kernel
+example : c16_styleMapOk (({} : Options).styleMap.getD []) = true := by decide
+example : (readEmbeddedStyleMap c16_exCleanPkg).toOption = some none := by decide +kernel
+example :
+    (match readPackage c16_exCleanPkg 30 with
+     | .ok (doc, _) => c16_docClean (c16_apiCfg c16_exCleanPkg none (fun _ => none) {} none) doc
+     | .error _ => false) = true := by decide +kernel
+example :
+    ((apiConvert c16_exCleanPkg 30 none (fun _ => none) id {}).toOption.map (·.messages)) = some [] := by
+  decide +kernel
+
+/-- TWO IDENTICAL ANOMALIES AT DIFFERENT DEPTHS, ONE WARNING: the unknown element `w:foo` inside a run of
+    the body and inside a table cell in a text box in the footnote — the reader reports it twice (footnotes
+    first), the conversion once -/
+example :
+    (c16_readerWarnings c16_exAnomalyPkg).toOption =
+      some [S!"An unrecognised element was ignored: w:foo", S!"An unrecognised element was ignored: w:foo"] := by
+  decide +kernel
+example :
+    ((apiConvert c16_exAnomalyPkg 30 none (fun _ => none) id {}).toOption.map (·.messages)) =
+      some [S!"An unrecognised element was ignored: w:foo"] := by
+  decide +kernel
+
+/-- the hypotheses of the any-depth theorems are met by that package's footnote story: `w:foo` occurs (four
+    containers deep), it has no reader and is not ignored -/
+example :
+    c16_occursL (fun name _ _ => name == S!"w:foo")
+      [c16_exFootnotes [c16_exEl S!"w:foo"]] = false ∧      -- the part's root is not a story node …
+    c16_occursL (fun name _ _ => name == S!"w:foo")
+      (c16_noteNodes S!"footnote" [.elem S!"w:footnote" [(S!"w:id", S!"1")] [
+        c16_exPara [c16_exTextBox [c16_exEl S!"w:tbl" [c16_exEl S!"w:tr" [c16_exEl S!"w:tc" [c16_exEl S!"w:foo"]]]]]]]) = true ∧
+    handlerOf S!"w:foo" = none ∧ S!"w:foo" ∉ Generated.ignored := by
+  decide +kernel
+
+/-- the any-depth theorems are not vacuous: an undefined run style and an unknown element three containers
+    deep in a table; the reader ends with nothing held back and reports both -/
+example :
+    let ns : List XmlNode := [c16_exEl S!"w:tbl" [c16_exEl S!"w:tr" [c16_exEl S!"w:tc" [c16_exPara [
+      c16_exRun [c16_exEl S!"w:rPr" [c16_exVal S!"w:rStyle" S!"Ghost"], c16_exEl S!"w:foo"]]]]]]
+    c16_occursL (fun name _ _ => name == S!"w:foo") ns = true ∧
+    c16_occursL (fun name _ cs => name == S!"w:r" &&
+      (childAttr S!"w:rStyle" S!"w:val" (findChildOrNull S!"w:rPr" cs).2 == some S!"Ghost")) ns = true ∧
+    lookupLast (some S!"Ghost") ({} : REnv).styles.character = none ∧
+    (readAll {} 30 {} ns).toOption.map (fun x => (x.2.deleted.isEmpty, x.1.messages)) =
+      some (true, [S!"Run style with ID Ghost was referenced but not defined in the document",
+                   S!"An unrecognised element was ignored: w:foo"]) := by
+  decide +kernel
+
+/-- …and the second disjunct of `C16_anomaly_any_depth` is needed: an anomaly in a deleted-mark paragraph at
+    the END of a story is never read (the reader is left holding the content) — no warning -/
+example :
+    let ns : List XmlNode := [c16_exPara [c16_exEl S!"w:pPr" [c16_exEl S!"w:rPr" [c16_exEl S!"w:del"]],
+                                          c16_exRun [c16_exEl S!"w:foo"]]]
+    c16_occursL (fun name _ _ => name == S!"w:foo") ns = true ∧
+    (readAll {} 30 {} ns).toOption.map (fun x => (x.2.deleted.length, x.1.messages)) = some (2, []) ∧
+    -- followed by any paragraph, it is reported by that paragraph
+    (readAll {} 30 {} (ns ++ [c16_exPara []])).toOption.map (fun x => (x.2.deleted.length, x.1.messages)) =
+      some (0, [S!"An unrecognised element was ignored: w:foo"]) := by
+  decide +kernel
+
+/-- clean and not clean -/
+example : c16_xmlCleanL {} (c16_exBody []) = false := by decide +kernel   -- styles undefined in the empty environment
+example : c16_xmlCleanL {} [c16_exPara [c16_exTxt S!"x"], c16_exEl S!"w:tbl" [c16_exEl S!"w:tr" [c16_exEl S!"w:tc" [c16_exPara []]]]] = true := by
+  decide +kernel
+example : c16_xmlCleanL {} [c16_exEl S!"w:tbl" [c16_exEl S!"w:tr" [c16_exPara []]]] = false := by decide +kernel
 
 end Mammoth
